@@ -604,7 +604,63 @@ class FnEval:
             self.adjust = {}
             last = self.ev(body)
         res = join(self.ret, last)
+        if want_report:
+            self.check_return_side(res)
         return res if res is not None else ANY
+
+    def check_return_side(self, res):
+        """A4: a function whose name declares a side (`old_range`, `new_index`) returns positions/lengths of that side
+        on every path."""
+        ns = name_side(self.fn.name)
+        out_ty = ((self.fn.raw.get("sig") or {}).get("output_str") or "") if isinstance(self.fn.raw.get("sig"), dict) else ""
+        if ns is None or res is None:
+            return
+        bad = []
+
+        def walk(v, depth=0):
+            if not isinstance(v, tuple) or not v or depth > 5:
+                return
+            if v[0] == "S":
+                if v[1] in (POS, LEN) and v[2] in ("O", "N", "X") and v[2] != ns:
+                    bad.append(v)
+            elif v[0] == "R":
+                walk(v[1], depth + 1)
+                walk(v[2], depth + 1)
+            elif v[0] in ("O",):
+                walk(v[1], depth + 1)
+        # every tail expression separately (the join of an old-side arm and a new-side arm has no side left)
+        def leaves(e, depth=0):
+            while isinstance(e, dict) and e.get("k") in ("droptemps",):
+                e = e["x"]
+            if not isinstance(e, dict) or depth > 6:
+                return []
+            k = e.get("k")
+            if k == "block":
+                return leaves(e["b"].get("expr"), depth + 1) if e["b"].get("expr") else []
+            if k == "if":
+                return leaves(e["t"], depth + 1) + (leaves(e["f"], depth + 1) if e.get("f") else [])
+            if k == "match":
+                out = []
+                for a in e["arms"]:
+                    out += leaves(a["body"], depth + 1)
+                return out
+            return [e]
+        rep, self.report = self.report, False
+        try:
+            for leaf in leaves(self.fn.hir["body"]):
+                walk(self.ev(leaf))
+        finally:
+            self.report = rep
+        walk(res)
+        if not (isinstance(res, tuple) and res and res[0] in ("S", "R", "O")):
+            return
+        self.ctx.ob("A4", not bad, "%s returns %s" % (self.fn.path, show(res)))
+        if bad:
+            self.ctx.finding("A4", self.fn, "return-side",
+                             "%s is named for the %s side but returns %s on some path (%s)" % (
+                                 self.fn.name, _sn(ns), show(res),
+                                 "old and new values mixed" if bad[0][2] == "X" else "a %s-side value" % _sn(bad[0][2])),
+                             self.fn.line)
 
     def default_for_type(self, ty):
         t = (ty or "").replace("&mut ", "").replace("&", "")
@@ -1679,6 +1735,14 @@ class FnEval:
         arg_exprs = ([e.get("recv")] if e.get("k") == "mcall" else []) + list(e.get("args", []))
         self.check_lockstep(e, arg_exprs)
         self.check_mirror(g, e, arg_exprs)
+        if self.report and not g.public:
+            pat = []
+            for v in allv:
+                ss = sides_of(v) if (is_s(v) or (isinstance(v, tuple) and v and v[0] in ("R", "Q"))) else set()
+                pat.append(list(ss)[0] if len(ss) == 1 else None)
+            if sum(1 for x in pat if x) >= 2:
+                ctx.__dict__.setdefault("side_patterns", {}).setdefault(g.path, []).append(
+                    (tuple(pat), self.fn, e.get("src", ""), line))
         if self.report and g.spath in BOTH_INDEX_HELPERS and len(allv) >= 2:
             v = allv[1]
             ok = is_s(v) and v[1] in (LEN, ZERO, CONST) and v[2] in ("B", None) and not (v[1] == LEN and v[2] is None and False)
@@ -2397,8 +2461,44 @@ def analyse(prog, opts=None):
             ctx.count("helpers_checked_in_context")
             continue
         FnEval(ctx, fn, report=True).run()
+    _check_side_patterns(ctx)
     _cache[k] = ctx
     return ctx
+
+
+def _check_side_patterns(ctx):
+    """A11: all call sites of one private function agree on which of its arguments belong to the same side.
+    `max_d(old_len, new_len)` here and `max_d(old_len, old_len)` there cannot both be right."""
+    for gpath, sites in sorted(getattr(ctx, "side_patterns", {}).items()):
+        uniq = {}
+        for pat, fn, src, line in sites:
+            uniq.setdefault((pat, fn.path, _norm_src(src)), (pat, fn, src, line))
+        sites = list(uniq.values())
+        if len(sites) < 2:
+            continue
+        n = max(len(p[0]) for p in sites)
+        for i in range(n):
+            for j in range(i + 1, n):
+                rel = {}
+                for pat, fn, src, line in sites:
+                    if i < len(pat) and j < len(pat) and pat[i] and pat[j]:
+                        rel.setdefault(pat[i] == pat[j], []).append((fn, src, line))
+                if not rel:
+                    continue
+                ok = len(rel) == 1
+                ctx.ob("A11", ok, "%s: arguments %d and %d are %s at %d call site(s)" % (
+                    gpath, i + 1, j + 1, "consistently related" if ok else "same-side at some sites, opposite-side at others",
+                    sum(len(v) for v in rel.values())))
+                if not ok:
+                    minority = min(rel.values(), key=len)
+                    fn, src, line = minority[0]
+                    ctx.finding("A11", fn, "side-pattern:%s:%d:%d" % (_short(gpath), i + 1, j + 1),
+                                "`%s` passes arguments %d and %d of %s from %s, while %d other call site(s) pass them from %s: "
+                                "one of the two mixes up old and new" % (
+                                    src[:80], i + 1, j + 1, _short(gpath),
+                                    "the same side" if minority is rel.get(True) else "opposite sides",
+                                    sum(len(v) for k_, v in rel.items() if v is not minority),
+                                    "opposite sides" if minority is rel.get(True) else "the same side"), line)
 
 
 def _has_unseeded_relevant_param(ctx, fn):
@@ -2451,6 +2551,8 @@ RULE_TEXT = {
           "position is never advanced by an old-side length)",
     "A8": "ranges of the two sides are stripped in lockstep: whenever an old-side and a new-side range variable are passed "
           "to one call, both have been moved by the same both-sided lengths at the same ends",
+    "A11": "all call sites of one private function agree on which of its arguments belong to the same side (old/new): a pair "
+           "of arguments that is (old, new) at one site and (old, old) at another marks a mixed-up call",
     "A10": "range literals passed for the old and the new side of one call are mirror images of each other (identical up to "
            "old<->new and side-specific offsets): both sides are stripped and advanced alike",
     "A9": "DiffOp helpers that move both index fields (shift_left, shift_right, grow_left, shrink_right) are called only "
@@ -2485,3 +2587,4 @@ rule_A7 = make_rule("A7")
 rule_A8 = make_rule("A8")
 rule_A9 = make_rule("A9")
 rule_A10 = make_rule("A10")
+rule_A11 = make_rule("A11")
